@@ -4,7 +4,7 @@ from collections import Counter
 from fractions import Fraction as Fr
 import numpy as np
 from .common import guarded, run_model, ints
-from .prng import Tree, enumerate_tree, RecSHA256, RecRandomState
+from .prng import Tree, TreeRS, enumerate_tree, RecSHA256, RecRandomState
 
 RULE = ("exhaustive enumeration (scripted generator) of the whole choice space of permute, permute_within_groups, "
         "permute_rows, randomize_group, randomize_in_strata (incl. label vectors with repeats), of the sign vectors of "
@@ -21,9 +21,9 @@ ASSUMPTIONS = ["the raw bit source is an ideal uniform source (SHA-256 in counte
                "label vectors with repeated labels: equal multiplicity of every distinct arrangement is checked exhaustively, not proved"]
 
 
-def outcome_weights(run):
+def outcome_weights(run, cls=None):
     tot = Counter(); wsum = Fr(0); leaves = 0; arities = set()
-    for w, res, path in enumerate_tree(run):
+    for w, res, path in enumerate_tree(run, cls=cls):
         tot[res] += w; wsum += w; leaves += 1
         arities.add(tuple((a, k) for _, a, k in path))
     assert wsum == 1
@@ -94,7 +94,7 @@ def run(ctx):
             return seen[-1]
         designs.append((f"one_sample signs n={n}", "one_sample", runs, set(itertools.product((1, -1), repeat=n)), tuple((2, "randint") for _ in range(n))))
     # two_sample: allocation (subset received by the first sample) and full order; two consecutive repetitions
-    for nx, ny in ((1, 2), (2, 2)) + (((2, 3),) if big else ()):
+    for nx, ny in ((1, 1), (1, 2), (2, 2)) + (((2, 3),) if big else ()):
         N = nx + ny; data = np.arange(N, dtype=float)
         def runa(g, nx=nx, data=data, reps=1):
             seen = []
@@ -102,10 +102,14 @@ def run(ctx):
             return tuple(seen[2:])
         orders = {(tuple(float(i) for i in p[:nx]) + ("|",) + tuple(float(i) for i in p[nx:]),) for p in itertools.permutations(range(N))}
         designs.append((f"two_sample orders nx={nx} ny={ny}", "two_sample", runa, orders, tuple((i + 1, "randbelow") for i in reversed(range(1, N)))))
-        if N <= 3:
+        if N <= 4:
             pairs = {(a[0], b[0]) for a in orders for b in orders}
             designs.append((f"two_sample two consecutive repetitions nx={nx} ny={ny}", "two_sample", lambda g, runa=runa: runa(g, reps=2), pairs,
                             tuple((i + 1, "randbelow") for i in reversed(range(1, N))) * 2))
+        if N <= 3 or (big and N <= 4 and nx == ny):
+            triples = {(a[0], b[0], c[0]) for a in orders for b in orders for c in orders}
+            designs.append((f"two_sample three consecutive repetitions nx={nx} ny={ny}", "two_sample", lambda g, runa=runa: runa(g, reps=3), triples,
+                            tuple((i + 1, "randbelow") for i in reversed(range(1, N))) * 3))
     # k_sample relabellings (repeated labels)
     grp = np.array([0, 0, 1, 2])
     def runk(g, grp=grp):
@@ -115,16 +119,20 @@ def run(ctx):
     designs.append(("k_sample relabellings [0,0,1,2]", "k_sample", runk, multiset_perms([0, 0, 1, 2]), tuple((4 - i, "fy") for i in range(4))))
     ctx.exhaustive = True
     all_ok = True
-    for name, site, runner, adm, arity in designs:
-        r = guarded(outcome_weights, runner, secs=120)
-        ctx.case(("design", name), len(adm) > 1, {"design": name, "admissible_outcomes": len(adm)}); ctx.count("exhaustive-designs")
+    for name, site, runner, adm, arity, cls in [d + (Tree,) for d in designs] + [d + (TreeRS,) for d in designs]:
+        rs = cls is TreeRS
+        if rs:
+            name = name + " [generator of type numpy RandomState]"
+        r = guarded(outcome_weights, runner, cls, secs=180)
+        ctx.case(("design", name), len(adm) > 1, {"design": name, "admissible_outcomes": len(adm)}); ctx.count("exhaustive-designs" + ("-randomstate" if rs else ""))
         if r[0] != "ok":
             all_ok = False
             ctx.violation("oracle", {"design": name, "issue": "enumeration failed", "returned": r[1:]}, site=site); continue
         tot, leaves, arities = r[1]
         ctx.count("exhaustive-leaves", leaves)
         want = Fr(1, len(adm))
-        if arities != {arity}:
+        uniform_ok = set(tot) == adm and all(w == want for w in tot.values())
+        if (arities != {arity} and not rs) or (rs and not uniform_ok):
             # the model of how draws are consumed no longer matches: the leaf weights computed by the scripted
             # generator are then meaningless, so no failing input can be claimed from them
             all_ok = False
@@ -132,15 +140,15 @@ def run(ctx):
             trials = 80 * len(adm)
             cnt = Counter()
             for i in range(trials):
-                rr = guarded(runner, RecSHA256(ctx.seed * 7919 + i))
+                rr = guarded(runner, np.random.RandomState((ctx.seed * 7919 + i) % 2**32) if rs else RecSHA256(ctx.seed * 7919 + i))
                 cnt[rr[1] if rr[0] == "ok" else ("error", str(rr[1:])[:80])] += 1
             chi = sum((cnt.get(o, 0) - 80) ** 2 / 80 for o in adm)
             if set(cnt) - adm or chi > 12 * len(adm) + 60:
                 ctx.violation("oracle", {"design": name, "issue": "over real seeds the outcomes are not uniform on the admissible set",
                                          "trials": trials, "chi2": chi, "admissible_outcomes": len(adm), "never_produced": [str(o) for o in adm if cnt.get(o, 0) == 0][:4],
-                                         "inadmissible_or_errors": [str(o) for o in set(cnt) - adm][:4], "seeds": f"SHA256({ctx.seed * 7919} + i), i < {trials}"}, site=site)
+                                         "inadmissible_or_errors": [str(o) for o in set(cnt) - adm][:4], "seeds": f"{'RandomState' if rs else 'SHA256'}({ctx.seed * 7919} + i), i < {trials}"}, site=site)
             else:
-                ctx.violation("correspondence", {"design": name, "issue": "the generator is asked for draws with other ranges than the model's",
+                ctx.violation("correspondence", {"design": name, "issue": ("under the scripted RandomState the outcomes are not uniform on the admissible set, but real RandomState seeds show no deviation" if rs else "the generator is asked for draws with other ranges than the model's"),
                                                  "requested": [list(a) for a in list(arities)[:2]], "expected": list(arity), "chi2_over_real_seeds": chi}, site=site, no_input=True)
             continue
         bad = None
